@@ -138,7 +138,12 @@ class Interval(Duration, Generic[_T]):
 
         delta: timedelta = _end - _start
 
-        return super().__new__(cls, seconds=delta.total_seconds())
+        return super().__new__(
+            cls,
+            days=delta.days,
+            seconds=delta.seconds,
+            microseconds=delta.microseconds,
+        )
 
     def __init__(self, start: _T, end: _T, absolute: bool = False) -> None:
         super().__init__()
@@ -317,7 +322,11 @@ class Interval(Duration, Generic[_T]):
         """
         Return the Interval as a Duration.
         """
-        return Duration(seconds=self.total_seconds())
+        return Duration(
+            days=timedelta.days.__get__(self),
+            seconds=timedelta.seconds.__get__(self),
+            microseconds=timedelta.microseconds.__get__(self),
+        )
 
     def __iter__(self) -> Iterator[_T]:
         return self.range("days")
